@@ -102,4 +102,104 @@ theorem chainOk_sound (ρ : Nat → Int) (env : List AV) (n k : Nat) (henv : Env
       simp only [List.map_cons, chainCarry, List.getLastD_cons]
       rw [← hrel, ← r]
 
+
+/-! ### mixed-radix chains (the last digit of the Ed448 scalar limbs has 14 bits) -/
+
+def chainCarryM : List (Int × Int) → Int → Int
+  | [], c => c
+  | (x, T) :: xs, c => chainCarryM xs ((x + c) / T)
+
+def evalM : List (Int × Int) → Int
+  | [] => 0
+  | (x, T) :: xs => x + T * evalM xs
+
+def prodT : List (Int × Int) → Int
+  | [] => 1
+  | (_, T) :: xs => T * prodT xs
+
+theorem chainCarryM_eq : ∀ (xs : List (Int × Int)) (c : Int), (∀ p ∈ xs, 0 < p.2) →
+    chainCarryM xs c = (evalM xs + c) / prodT xs := by
+  intro xs
+  induction xs with
+  | nil => intro c _; simp [chainCarryM, evalM, prodT]
+  | cons p xs ih =>
+    intro c hpos
+    obtain ⟨x, T⟩ := p
+    have hT : 0 < T := hpos (x, T) (by simp)
+    simp only [chainCarryM, evalM, prodT]
+    rw [ih _ (fun q hq => hpos q (by simp [hq]))]
+    have h1 : (x + T * evalM xs + c) / (T * prodT xs) = ((x + T * evalM xs + c) / T) / prodT xs := by
+      rw [Int.ediv_ediv_of_nonneg (Int.le_of_lt hT)]
+    have h2 : (x + T * evalM xs + c) / T = evalM xs + (x + c) / T := by
+      have : x + T * evalM xs + c = (x + c) + T * evalM xs := by ring
+      rw [this, Int.add_mul_ediv_left _ _ (Int.ne_of_gt hT)]; ring
+    rw [h1, h2]
+
+/-- recogniser with a per-item shift: items (mᵢ, eᵢ, kᵢ) -/
+def chainOkM (env : List AV) (n : Nat) : List (Nat × Int × Nat) → Option Nat → List Nat → Bool
+  | [], _, [] => true
+  | (m, e, k) :: rest, prev, c :: cs =>
+    (match (aget env n c).prov with
+     | .shr x k' =>
+       decide (k' = k) && decide (x < n) && decide (m < n) && decide (c < n) &&
+       (match prev with
+        | some p => decide (p < n) &&
+            allDiv 0 (psub (aget env n x).poly (padd (padd (aget env n m).poly (pconst e)) (aget env n p).poly))
+        | none => allDiv 0 (psub (aget env n x).poly (padd (aget env n m).poly (pconst e))))
+     | _ => false) && chainOkM env n rest (some c) cs
+  | _, _, _ => false
+
+theorem chainOkM_sound (ρ : Nat → Int) (env : List AV) (n : Nat) (henv : EnvOK ρ env n) :
+    ∀ (items : List (Nat × Int × Nat)) (prev : Option Nat) (cs : List Nat) (c0 : Int),
+      chainOkM env n items prev cs = true →
+      (∀ p, prev = some p → ρ p = c0) → (prev = none → c0 = 0) →
+      cs.length = items.length ∧
+      (cs.map ρ).getLastD c0
+        = chainCarryM (items.map (fun mek => (ρ mek.1 + mek.2.1, (2 : Int) ^ mek.2.2))) c0 := by
+  intro items
+  induction items with
+  | nil =>
+    intro prev cs c0 h _ _
+    cases cs with
+    | nil => simp [chainCarryM]
+    | cons c cs => simp [chainOkM] at h
+  | cons mek rest ih =>
+    intro prev cs c0 h hp hn
+    obtain ⟨m, e, k⟩ := mek
+    cases cs with
+    | nil => simp [chainOkM] at h
+    | cons c cs =>
+      simp only [chainOkM, Bool.and_eq_true] at h
+      obtain ⟨h1, h2⟩ := h
+      have hrel : ρ c = (ρ m + e + c0) / 2 ^ k := by
+        revert h1
+        split
+        · next x k' hprov =>
+          intro h1
+          simp only [Bool.and_eq_true, decide_eq_true_eq] at h1
+          obtain ⟨⟨⟨⟨hk, hx⟩, hm⟩, hc⟩, hpoly⟩ := h1
+          subst hk
+          have e1 : ρ c = ρ x / 2 ^ k' := by
+            have := (henv c hc).prov; rw [hprov] at this; exact this
+          have e2 : ρ x = ρ m + e + c0 := by
+            revert hpoly
+            split
+            · next p =>
+              intro hpoly
+              simp only [Bool.and_eq_true, decide_eq_true_eq] at hpoly
+              have := allDiv_zero ρ _ hpoly.2
+              rw [evalPoly_psub, evalPoly_padd, evalPoly_padd, evalPoly_pconst, (henv x hx).poly,
+                (henv m hm).poly, (henv p hpoly.1).poly, hp p rfl] at this
+              omega
+            · intro hpoly
+              have := allDiv_zero ρ _ hpoly
+              rw [evalPoly_psub, evalPoly_padd, evalPoly_pconst, (henv x hx).poly, (henv m hm).poly] at this
+              rw [hn rfl]; omega
+          rw [e1, e2]
+        · intro h1; simp at h1
+      obtain ⟨l, r⟩ := ih (some c) cs (ρ c) h2 (fun p hp' => by cases hp'; rfl) (fun hc => by cases hc)
+      refine ⟨by simp [l], ?_⟩
+      simp only [List.map_cons, chainCarryM, List.getLastD_cons]
+      rw [← hrel, ← r]
+
 end Reflect
